@@ -287,6 +287,16 @@ impl Request {
     pub fn method(&self) -> (r: Method)
         ensures r == self.method_s(),
     { unimplemented!() }
+    /// the per-request middleware stack, if any
+    pub uninterp spec fn req_mw(&self) -> Option<Seq<ArcMiddleware>>;
+    // ASSUMED (Request::take_middleware: `self.middleware.take()`): hands the stack out, leaves none, touches nothing else
+    #[verifier::external_body]
+    pub fn take_middleware(&mut self) -> (r: Option<Vec<ArcMiddleware>>)
+        ensures
+            match r { Some(v) => old(self).req_mw() == Some(v@), None => old(self).req_mw() is None },
+            final(self).req_mw() is None,
+            final(self).url_s() == old(self).url_s(), final(self).head() == old(self).head(), final(self).body() == old(self).body(),
+    { unimplemented!() }
     // ASSUMED (crux_http::Request::url -> http_types::Request::url)
     #[verifier::external_body]
     pub fn url(&self) -> (r: &Url)
@@ -533,10 +543,27 @@ impl ArcEffectSender {
             final(w).handled == old(w).handled, final(w).endpoint_calls == old(w).endpoint_calls,
     { unimplemented!() }
 }
+impl Clone for ArcEffectSender {
+    // ASSUMED (Arc::clone): the same sender
+    #[verifier::external_body]
+    fn clone(&self) -> (r: Self)
+        ensures r == *self,
+    { unimplemented!() }
+}
+/// crux_http::Config (opaque)
 #[verifier::external_body]
-pub struct ClientRest { _p: u8 }
-/// crux_http::Client as a middleware sees it
-pub struct Client { pub effect_sender: ArcEffectSender, pub rest: ClientRest }
+pub struct Config { _p: u8 }
+impl Clone for Config {
+    #[verifier::external_body]
+    fn clone(&self) -> (r: Self)
+        ensures r == *self,
+    { unimplemented!() }
+}
+//@extract id=Client file=crux_http/src/client.rs item="struct Client"
+//@rule X5.dyn-sender 1 s/effect_sender: Arc<dyn EffectSender \+ Send \+ Sync>,/pub effect_sender: ArcEffectSender,/
+//@rule X5.dyn-middleware 1 s/middleware: Arc<Vec<Arc<dyn Middleware>>>,/pub middleware: std::sync::Arc<Vec<ArcMiddleware>>,/
+//@rule X2.vis 1 s/\n(\s+)config: Config,/\n\1pub config: Config,/
+//@end
 /// `Box::pin(async move { .. })` under X17: the block it runs
 pub fn pin_block<T>(t: T) -> (r: T)
     ensures r == t,
@@ -572,6 +599,13 @@ impl ArcMiddleware {
             old(w).handled.is_prefix_of(final(w).handled),
             final(w).handled[old(w).handled.len() as int] == (self.id(), sent_of(req), ids_of(next.next_middleware@)),
             old(w).endpoint_calls.is_prefix_of(final(w).endpoint_calls),
+    { unimplemented!() }
+}
+impl Clone for ArcMiddleware {
+    // ASSUMED (Arc::clone): the same middleware
+    #[verifier::external_body]
+    fn clone(&self) -> (r: Self)
+        ensures r == *self,
     { unimplemented!() }
 }
 pub open spec fn ids_of(s: Seq<ArcMiddleware>) -> Seq<MwId> { s.map(|_i: int, m: ArcMiddleware| m.id()) }
@@ -944,6 +978,61 @@ pub fn shell_request(Tracked(w): Tracked<&mut HW>, operation: HttpRequest, ctx: 
 //@rule X7.turbofish 1 s/Response::<Vec<u8>>::new\((\w+)\.into\(\)\)/response_new(response_from(\1))/
 //@rule X1.closure-contract 1 closure#\.and_then\(#|$x: Response<Vec<u8>>| -> (d: Result<Response<ExpectBody>>) ensures d == this.expectation.decoded($x) // [C15/command-build/a-classified-response-is-decoded-by-the-body-expectation-exactly-once]\n#
 //@end
+
+// ------------------------------------------------------------------ C16: the chain Client::send builds
+// `mw.extend(middleware.iter().cloned())` / `mw.extend(req_mw)` - ASSUMED (Vec::extend): appends, in order
+#[verifier::external_body]
+pub fn extend_cloned(v: &mut Vec<ArcMiddleware>, from: &Vec<ArcMiddleware>)
+    ensures final(v)@ == old(v)@ + from@,
+{ unimplemented!() }
+#[verifier::external_body]
+pub fn extend_owned(v: &mut Vec<ArcMiddleware>, from: Vec<ArcMiddleware>)
+    ensures final(v)@ == old(v)@ + from@,
+{ unimplemented!() }
+/// the endpoint closure `&|req, client| { .. }` handed to Next::new (its body is proved above as `endpoint`)
+#[verifier::external_body]
+pub fn endpoint_ref() -> (r: &'static Endpoint) { unimplemented!() }
+impl From<ResponseAsync> for HttpTypesResponse {
+    // ASSUMED (impl Into<http_types::Response> for ResponseAsync: `self.res`)
+    #[verifier::external_body]
+    fn from(r: ResponseAsync) -> (out: HttpTypesResponse) { unimplemented!() }
+}
+/// the whole chain a request runs through: the client's middleware, then its own
+pub open spec fn full_chain(c: Client, req: Request) -> Seq<ArcMiddleware> {
+    match req.req_mw() { Some(m) => c.middleware@ + m, None => c.middleware@ }
+}
+
+impl<'a> Next<'a> {
+//@extract id=Next::new file=crux_http/src/middleware.rs within="impl<'a> Next<'a>" item="fn new" props=C16
+//@expect pub fn new( next: &'a [Arc<dyn Middleware>], endpoint: &'a (dyn (Fn(Request, Client) -> BoxFuture<'static, Result<ResponseAsync>>) + Send + Sync + 'static), ) -> Self
+//@sig pub fn new(next: &'a [ArcMiddleware], endpoint: &'a Endpoint) -> (r: Self)
+//@contract
+        ensures r.next_middleware@ == next@ && r.endpoint == endpoint, // [C16/Next::new/the-chain-and-the-endpoint-as-given]
+//@end
+}
+
+impl Client {
+//@extract id=Client::send file=crux_http/src/client.rs within="impl Client" item="fn send" props=C16
+//@expect pub async fn send(&self, req: impl Into<Request>) -> Result<ResponseAsync>
+//@sig pub fn send_chain(&self, Tracked(w): Tracked<&mut HW>, req: Request) -> (r: Result<ResponseAsync>)
+//@contract
+        requires
+            self.middleware@.len() < 0x7fff_ffff && (req.req_mw() matches Some(m) ==> m.len() < 0x7fff_ffff), // (fewer than 2^31 middlewares: `Vec::with_capacity(a + b)` would overflow otherwise - stated)
+        ensures
+            full_chain(*self, req).len() > 0 ==> final(w).handled.len() > old(w).handled.len() && final(w).handled[old(w).handled.len() as int].0 == full_chain(*self, req)[0].id() && final(w).handled[old(w).handled.len() as int].2 == ids_of(full_chain(*self, req).subrange(1, full_chain(*self, req).len() as int)), // [C16/Client::send/client-middleware-first-then-per-request-middleware-then-the-shell]
+            full_chain(*self, req).len() > 0 ==> final(w).handled[old(w).handled.len() as int].1 == (Sent { url: req.url_s(), head: req.head(), body: req.body() }), // [C16/Client::send/the-first-middleware-gets-the-request-as-the-app-built-it]
+            full_chain(*self, req).len() == 0 ==> final(w).endpoint_calls == old(w).endpoint_calls.push(Sent { url: req.url_s(), head: req.head(), body: req.body() }) && final(w).handled == old(w).handled, // [C16/Client::send/without-middleware-the-request-goes-straight-to-the-shell-once]
+//@rule X17.await * s/\s*\.await\b//
+//@rule X7.into 1 s/= req\.into\(\);/= req;/
+//@rule X13.extend 1 s/(\w+)\.extend\((\w+)\.iter\(\)\.cloned\(\)\);/extend_cloned(&mut \1, &\2);/
+//@rule X13.extend 1 s/(\w+)\.extend\((\w+)\);/extend_owned(&mut \1, \2);/
+//@rule X5.endpoint-closure 1 block#&\|\w+,\s*\w+\|\s*#endpoint_ref()#
+//@rule X7.arc-clone * s/Arc::clone\(&([\w.]+)\)/\1.clone()/
+//@rule X7.arc * s/\bArc::new\(/std::sync::Arc::new(/
+//@rule X6.world 1 s/\bnext\.run\(/next.run(Tracked(w), /
+//@end
+}
+
 
 // ------------------------------------------------------------------ C11: equality of responses follows their contents
 
